@@ -189,6 +189,10 @@ Bound == GenOK /\ steps <= MaxSteps
 (* Always TRUE.                                                                                                *)
 EmitPath == steps = MaxSteps + 1 => PrintT(<<"PATH", ToJson(hist)>>)
 
+(* Simulation mode (tlc -simulate): TLC evaluates invariants on every candidate successor, so a deep random walk would *)
+(* print hundreds of one-step extensions of the same prefix; print about one in EmitEvery of them.  Always TRUE.        *)
+EmitSome == (steps = MaxSteps + 1 /\ RandomElement(1..40) = 1) => PrintT(<<"PATH", ToJson(hist)>>)
+
 Struct == StructInv(s)
 CacheOK == CacheInv(s)
 
